@@ -15,8 +15,8 @@ def files():
     G.add_message(fd, "Spec", [G.F("size", 1, G.T.TYPE_INT32), G.F("class", 2, G.T.TYPE_STRING)])
     req = G.add_message(fd, "Req", [G.F("parent", 1, G.T.TYPE_STRING), G.F("count", 2, G.T.TYPE_INT32, proto3_optional=True, oneof_index=0),
                                     G.F("force", 3, G.T.TYPE_BOOL, proto3_optional=True, oneof_index=1),
-                                    G.F("spec", 4, G.T.TYPE_MESSAGE, type_name=".acme.lab.v1.Spec"),
-                                    G.F("tags", 5, G.T.TYPE_STRING, label=G.REPEATED), G.F("type", 7, G.T.TYPE_STRING)])
+                                    G.F("spec", 4, G.T.TYPE_MESSAGE, type_name=".acme.lab.v1.Spec", required=True),
+                                    G.F("tags", 5, G.T.TYPE_STRING, label=G.REPEATED), G.F("type", 7, G.T.TYPE_STRING, required=True)])
     req.oneof_decl.add(name="_count"); req.oneof_decl.add(name="_force")
     e = req.nested_type.add(name="LabelsEntry")
     e.field.append(G.F("key", 1, G.T.TYPE_STRING)); e.field.append(G.F("value", 2, G.T.TYPE_STRING)); e.options.map_entry = True
@@ -84,6 +84,23 @@ def _drive_groups(fs, groups, compile_only=False):
         client = lab_v1.LabClient(transport=LabGrpcTransport(channel=G.fake_channel(handler), credentials=AnonymousCredentials()))
 
         aclient = lab_v1.LabAsyncClient(transport=LabGrpcAsyncIOTransport(channel=G.fake_aio_channel(handler), credentials=AnonymousCredentials()))
+        # the parameters are offered in declared order: request, then every signature entry in order of first appearance
+        import inspect, keyword
+        svc_pb = [f for f in fs if f.service][0].service[0]
+        from google.api import client_pb2
+        for mpb in svc_pb.method:
+            order = []
+            for sig in mpb.options.Extensions[client_pb2.method_signature]:
+                for entry in [x for x in sig.split(",") if x]:
+                    leaf = entry.rsplit(".", 1)[-1]
+                    if leaf not in order:
+                        order.append(leaf)
+            pyname = "".join("_" + c.lower() if c.isupper() else c for c in mpb.name).lstrip("_")
+            for which, cl in (("sync", client), ("async", aclient)):
+                params = [p for p in inspect.signature(getattr(cl, pyname)).parameters if p not in ("retry", "timeout", "metadata")]
+                got = [p[:-1] if p.endswith("_") and p[:-1] in order else p for p in params]
+                if got != ["request"] + order:
+                    failures.append({"case": f"{which} {pyname}: parameters are not offered in declared order", "declared": ["request"] + order, "offered": params})
         for method, req_cls_path, cases in groups:
             mod = __import__(req_cls_path[0], fromlist=["x"])
             Req = getattr(mod, req_cls_path[1])
@@ -152,3 +169,39 @@ def witness_dotted_pb2():
         return r
     cases = [(dict(name="p/1", seconds=5), build)]
     return _drive(drop_method(files(), ["Dep"]), cases, "wait", ("google.longrunning.operations_pb2", "WaitOperationRequest"))
+
+
+def order_bounded():
+    """Bounded check of the real Method._fields_mapping / flattened_fields: every method_signature set made of one or two signatures with up to
+    3 entries over the fields {a REQUIRED, b, c REQUIRED, sub.x, sub.y REQUIRED} - the keys come in order of first appearance."""
+    import itertools
+    from vf import genlab as G
+    fd = G.new_file("acme/ord/v1/ord.proto", "acme.ord.v1")
+    G.add_message(fd, "Sub", [G.F("x", 1, G.T.TYPE_STRING), G.F("y", 2, G.T.TYPE_STRING, required=True)])
+    G.add_message(fd, "Req", [G.F("a", 1, G.T.TYPE_STRING, required=True), G.F("b", 2, G.T.TYPE_STRING), G.F("c", 3, G.T.TYPE_INT32, required=True),
+                              G.F("sub", 4, G.T.TYPE_MESSAGE, type_name=".acme.ord.v1.Sub")])
+    G.add_message(fd, "Resp", [G.F("x", 1, G.T.TYPE_STRING)])
+    svc = G.add_service(fd, "Ord")
+    entries = ["a", "b", "c", "sub.x", "sub.y"]
+    singles = [list(p) for n in (1, 2, 3) for p in itertools.permutations(entries, n)]
+    sets = [[s] for s in singles] + [[s1, s2] for s1 in singles if len(s1) <= 2 for s2 in singles if len(s2) <= 2 and s1 != s2]
+    want = {}
+    for i, sigs in enumerate(sets):
+        G.add_method(svc, f"M{i}", ".acme.ord.v1.Req", ".acme.ord.v1.Resp", signatures=[",".join(s) for s in sigs])
+        order = []
+        for s in sigs:
+            for e in s:
+                if e not in order:
+                    order.append(e)
+        want[f"M{i}"] = order
+    api, _ = G.build_api([fd], "autogen-snippets=false")
+    failures = []
+    methods = api.services["acme.ord.v1.Ord"].methods
+    for name, order in want.items():
+        got = list(methods[name].flattened_fields)
+        if got != order:
+            failures.append({"case": "Method.flattened_fields is not in order of first appearance", "signatures": list(
+                fd.service[0].method[int(name[1:])].options.Extensions[__import__("google.api.client_pb2", fromlist=["x"]).method_signature]), "keys": got, "declared": order})
+            if len(failures) > 5:
+                break
+    return {"cases": len(want), "failures": failures}
